@@ -276,6 +276,66 @@ def upscaleCheck (ds out cds : Array Nat) (minNum minDen : Nat) :
         else some (valid, streams, fix, short))
     (Array.replicate cds.size true, streamsInit ds.size out, [], [])
 
+/-! ### pieces of the iterative stages of `ihu`: `outlet_pix`, `new_outlet` (modelled for correspondence only) -/
+
+/-- `outlet_pix(idx, subidxs_ds, ncol, subncol, cellsize, all)`: pits of the coarse cell and edge pixels whose
+downstream pixel lies outside it, column by column. `subidx_2_idx(mv, …)` (a missing pixel on the edge) is never the
+cell itself for the signed index types the library uses. -/
+def outletPix (ds : Array Nat) (idx ncol subncol cs : Nat) (all : Bool) : List Nat :=
+  let subnrow := ds.size / subncol
+  let cul := (idx % ncol) * cs
+  let rul := (idx / ncol) * cs
+  (List.range cs).foldl (fun acc ci =>
+    if cul + ci ≥ subncol then acc else
+    (List.range cs).foldl (fun acc ri =>
+      if rul + ri ≥ subnrow then acc else
+      let p := (rul + ri) * subncol + cul + ci
+      let p1 := ds[p]!
+      let edge := ci == 0 || ci + 1 == cs || ri == 0 || ri + 1 == cs
+      if p = p1 then acc ++ [p]
+      else if edge && (all || p1 == ds.size || subidx2idx p1 subncol cs ncol != idx) then acc ++ [p]
+      else acc) acc) []
+
+/-- the `while True` of `new_outlet`: follow the stream from a candidate pixel to the next outlet pixel or pit;
+returns (`path`, last `subidx`, `subidx_ds`) -/
+def newOutletWalk (ds : Array Nat) (streams : Array Int) : Nat → Nat → List Nat → Option (List Nat × Nat × Nat)
+  | 0, _, _ => none
+  | fuel+1, p, path =>
+    let p1 := ds[p]!
+    if streams[p1]! ≥ 0 ∨ p = p1 then some (path ++ [p1], p, p1)
+    else newOutletWalk ds streams fuel p1 (path ++ [p1])
+
+/-- `new_outlet(idx0, subidx0, streams, idxs_ds, subidxs_out, subidxs_ds, subuparea, ncol, subncol, cellsize,
+minlen, minupa, subidx1)` with `minlen = minNum/minDen`; `upa` and `minupa` are scaled by the same factor.
+Returns (`streams`, `idxs_ds`, `subidxs_out`, found). -/
+def newOutlet (ds : Array Nat) (upa : Array Int) (idx0 subidx0 : Nat) (streams : Array Int)
+    (cds out : Array Nat) (ncol subncol cs minNum minDen : Nat) (minupa : Int) (target : Option Nat) :
+    Option (Array Int × Array Nat × Array Nat × Bool) :=
+  let streams := streams.setIfInBounds subidx0 (-1)
+  let cands := outletPix ds idx0 ncol subncol cs false
+  -- state: upa0, subidx_out, idx_ds, path0 (`none` = nothing found yet)
+  let res := cands.foldlM (fun (st : Int × Option (Nat × Nat × List Nat)) cand =>
+    if streams[cand]! ≠ -9 ∨ upa[cand]! ≤ st.1 then some st
+    else match newOutletWalk ds streams (ds.size + 1) cand [] with
+      | none => none
+      | some (path, last, pds) =>
+        let n := path.length
+        let idx1 := subidx2idx pds subncol cs ncol
+        let outlet1 := match target with
+          | none => true
+          | some t => t == pds
+        let outlet := decide (n * minDen > minNum) && inD8 idx0 idx1 ncol && idx0 != idx1
+        let pit := n == 1 && last == path.head! && idx0 == idx1
+        if outlet1 && (outlet || pit) then some (upa[cand]!, some (cand, idx1, path)) else some st)
+    (minupa, none)
+  match res with
+  | none => none
+  | some (_, none) => some (streams.setIfInBounds subidx0 (Int.ofNat idx0), cds, out, false)
+  | some (_, some (pout, idxds, path0)) =>
+    let streams := streams.setIfInBounds pout (Int.ofNat idx0)
+    let streams := path0.foldl (fun s p => s.setIfInBounds p (max s[p]! (-1))) streams
+    some (streams, cds.setIfInBounds idx0 idxds, out.setIfInBounds idx0 pout, true)
+
 /-! ### specification side: certificate checker `UpscaleOK` and the declarative connection check -/
 
 /-- witnesses handed to the checker (computed by unverified code in the driver):
@@ -334,6 +394,26 @@ def mkCert (ds : Array Nat) (g : Geo) (cds out : Array Nat) : UpCert where
   inv := (List.range out.size).foldl (fun a c => a.setIfInBounds out[c]! c) (Array.replicate ds.size out.size)
   wit := (List.range ds.size).foldl (fun a p =>
     if ds[p]! = ds.size then a else a.setIfInBounds (g.cell p) p) (Array.replicate out.size ds.size)
+
+/-! ### executable checks of the hypotheses of the by-construction theorems (evaluated by the driver on every case) -/
+
+def centreAxB (cs x : Nat) : Bool := decide (cs ≤ 2 * (x % cs) + 2) && decide (2 * (x % cs) ≤ cs)
+
+/-- the effective-area map contains the centre cross of every coarse cell -/
+def chkEaCross (g : Geo) (ea : Array Bool) (n : Nat) : Bool :=
+  allCells n fun p => !(centreAxB g.cs (p / g.subncol) || centreAxB g.cs (p % g.subncol)) || ea[p]!
+
+/-- fine links join 8-neighbours -/
+def chkFineD8 (ds : Array Nat) (subncol : Nat) : Bool :=
+  allCells ds.size fun p => ds[p]! == ds.size || inD8 p ds[p]! subncol
+
+/-- valid fine cells point to valid fine cells -/
+def chkFineWF (ds : Array Nat) : Bool :=
+  allCells ds.size fun p => ds[p]! == ds.size || (decide (ds[p]! < ds.size) && ds[ds[p]!]! != ds.size)
+
+/-- the upstream area strictly increases downstream -/
+def chkUpaMono (ds : Array Nat) (upa : Array Int) : Bool :=
+  allCells ds.size fun p => ds[p]! == ds.size || ds[p]! == p || decide (upa[p]! < upa[ds[p]!]!)
 
 /-- declarative version of the connection check for one coarse cell: the walk decides membership in the
 outlet list directly (no mask array) -/
